@@ -111,6 +111,8 @@ def run(ctx):
                                    scratch=sc, expect_fail=True, workers=1),
         "gl_super": lambda: run_tlc("Globals", _gl_cfg(["FontCacheSupersetReuse"], 3, ("HistoryIndependent",)),
                                     scratch=sc, expect_fail=True, workers=1),
+        "gl_reg": lambda: run_tlc("Globals", _gl_cfg(["RegistryFilledBySerialize"], 3, ("HistoryIndependent",)),
+                                  scratch=sc, expect_fail=True, workers=1),
         "gl_aes": lambda: run_tlc("Globals", _gl_cfg(["PermanentAesPatch", "AesPatchOnlyOnOpenFailure"], 3,
                                                      ("HistoryIndependent",)),
                                   scratch=sc, expect_fail=True, workers=1),
@@ -137,6 +139,7 @@ def run(ctx):
                          ("ps_nofinally", "Residue", "RestoreOnRaise=FALSE: Residue must fail"),
                          ("gl_font", "HistoryIndependent", "FontCacheKeyedByFontOnly: HistoryIndependent must fail"),
                          ("gl_super", "HistoryIndependent", "FontCacheSupersetReuse: HistoryIndependent must fail"),
+                         ("gl_reg", "HistoryIndependent", "RegistryFilledBySerialize: HistoryIndependent must fail"),
                          ("gl_aes", "HistoryIndependent", "PermanentAesPatch + AesPatchOnlyOnOpenFailure (pinned "
                                                           "tree): HistoryIndependent must fail"),
                          ("gl_aes_res", "ResidueFree", "PermanentAesPatch: ResidueFree must fail")):
@@ -203,6 +206,11 @@ def run(ctx):
         docs["gen:" + name] = {"path": str(docdir / name), "cls": "plain", "f": "", "g": []}
     (docdir / "truncated.docx").write_bytes((res_root / "modern_ms" / "headings.docx").read_bytes()[:3000])
     docs["gen:truncated.docx"] = {"path": str(docdir / "truncated.docx"), "cls": "plain", "f": "", "g": []}
+    for name, data in c15_docs.archive_docs().items():          # healthy / damaged 7z, truncated tar.gz, damaged zip
+        (docdir / name).write_bytes(data)
+        docs["gen:" + name] = {"path": str(docdir / name), "cls": "plain", "f": "", "g": []}
+    for tag, path in sorted(c15_docs.make_stored_json(docdir, res_root).items()):      # stored extractions
+        docs["deser:" + tag] = {"path": str(path), "cls": "deser", "f": tag, "g": []}
     for f in FONT_UNIVERSE["fonts"]:
         for g in FONT_UNIVERSE["gids"]:
             name = f"font-{f}-{'.'.join(map(str, g))}.pdf"
@@ -240,16 +248,23 @@ def run(ctx):
         base_out = [json.loads(f.result().stdout.strip().splitlines()[-1]) for f in f_base]
     lap("replay, stress and baseline workers")
     baseline = dict(zip(doc_ids, base_out))
-    dirty = [d for d, a in baseline.items() if not (a["cfg"] and a["tmp"] and a["fds"] and a["fns"])]
+    dirty = [d for d, a in baseline.items() if not (a["cfg"] and a["tmp"] and a["fds"] and a["fns"] and a["reg"] != "partial")]
     for d, a in baseline.items():
         if d in dirty[:MAX_REPORT]:
             v.violation(what=f"a single extraction in a fresh process leaves residue: document {d}: "
                              f"config unchanged={a['cfg']} temp root unchanged={a['tmp']} ({a.get('tmp_new')}) "
                              f"no new open files={a['fds']} ({a.get('fds_new')}) third-party functions "
-                             f"unchanged={a['fns']} ({a.get('fns_changed')}); {len(dirty)} documents do",
+                             f"unchanged={a['fns']} ({a.get('fns_changed')}) type registry={a['reg']}; "
+                             f"{len(dirty)} documents do",
                         case={"doc": d}, where="extractor of that format")
         if a["patches"] and docs[d]["cls"] == "plain":
             docs[d]["cls"] = "aesT"                             # a fixture that triggers the AES patch
+        elif docs[d]["cls"] == "plain" and a["sig"].startswith("EXC:"):
+            docs[d]["cls"] = "fail"                             # failing input (class of Globals.tla)
+        if docs[d]["cls"] == "deser" and not a["sig"].startswith("OK:"):
+            raise MachineryError(f"stored extraction {d} cannot be restored in a fresh process: {a['sig'][:200]}")
+    if not partial and docs.get("gen:damaged-folder2.7z", {}).get("cls") != "fail":
+        raise MachineryError("the 7z with a damaged second folder does not fail: failing-archive workload lost")
     if "aesT" in baseline and not baseline["aesT"]["patches"]:
         raise MachineryError("generated AES-256 PDF does not trigger the AES patch in isolation: model class wrong")
 
@@ -319,7 +334,7 @@ def run(ctx):
         if o["errors"]:
             v.violation(what=f"stress worker thread crashed: {o['errors'][:2]}", case={"stress": t["id"]})
         rs = o["residue"]
-        if not all(rs[k_] for k_ in ("aesfn", "fns", "cfg", "tmp", "fds")):
+        if not all(rs[k_] for k_ in ("aesfn", "fns", "cfg", "tmp", "fds")) or rs["reg"] == "partial":
             v.violation(what=f"after the stress run process-global state is not back: {rs}", case={"stress": t["id"]},
                         where="pdf_extractor.py / module-level state")
     ev.replayed(len(s_traces))
@@ -338,6 +353,8 @@ def run(ctx):
     if not aes:
         hists = [h for h in hists if not any(d[0] in ("aesT", "aesU") for d in h)]
     plain_pool = [d for d in sorted(baseline) if docs[d]["cls"] == "plain"]
+    fail_pool = [d for d in sorted(baseline) if docs[d]["cls"] == "fail"]
+    deser_pool = [d for d in sorted(baseline) if docs[d]["cls"] == "deser"]
     hjobs = []
     for h in ([] if partial else hists):
         ids = []
@@ -346,11 +363,15 @@ def run(ctx):
                 ids.append(f"font:{f}:{'.'.join(map(str, g))}")
             elif k == "plain":
                 ids.append(rng.choice(plain_pool))
+            elif k == "fail":
+                ids.append(rng.choice(fail_pool))
+            elif k == "deser":
+                ids.append(rng.choice(deser_pool))
             else:
                 ids.append(k)
         hjobs.append({"id": "abs:" + "|".join(ids), "docs": ids})
     n_orders = 10 if ctx.thorough else 3
-    everything = sorted(baseline)
+    everything = sorted(d for d in baseline if docs[d]["cls"] != "deser")
     if partial:
         hjobs = [{"id": "replay", "docs": rp_docs}] if rp_docs else []
         n_orders = 0
@@ -359,7 +380,12 @@ def run(ctx):
         rng.shuffle(ids)
         if i % 3 == 2:
             ids = [d for d in ids if docs[d]["cls"] not in ("aesT", "aesU")]     # patch-free order: full residue check
-        hjobs.append({"id": f"order-{i}", "docs": ids})
+        mixed = []                                      # restore a stored extraction after every 7th document
+        for n, d in enumerate(ids):
+            mixed.append(d)
+            if deser_pool and n % 7 == 3:
+                mixed.append(deser_pool[(n // 7 + i) % len(deser_pool)])
+        hjobs.append({"id": f"order-{i}", "docs": mixed})
     (sc / "docs.json").write_text(json.dumps(docs))
     with ThreadPoolExecutor(nproc + 4) as ex:
         fs = []
@@ -417,6 +443,9 @@ def run(ctx):
                 out_ = "ok" if not x["exc"] else ("fail" if x["exc"] == "ExtractionFailedError" else x["exc"])
             elif d["cls"] == "aesT":                   # a fixture that triggers the patch: only "as isolated" is known
                 out_ = "ok" if same else "differs"
+            elif d["cls"] == "deser":                  # sig = OK:<restored type>:<digest>
+                out_ = "same" if same else ("raw" if x["sig"].split(":")[1:2] != baseline[did]["sig"].split(":")[1:2]
+                                            else "differs")
             else:
                 out_ = "same" if same else "differs"
             evs.append({"a": "Extract", "d": d["cls"], "f": d["f"], "g": d["g"], "out": out_, "gl": x["gl"],
@@ -425,7 +454,7 @@ def run(ctx):
             kept.append(did)
         r_ = o["residue"]
         evs.append({"a": "Residue", "aesfn": r_["aesfn"], "fns": r_["fns"], "cfg": r_["cfg"], "tmp": r_["tmp"],
-                    "fds": r_["fds"]})
+                    "fds": r_["fds"], "reg": r_["reg"]})
         detail.append(json.dumps(r_))
         h_traces.append({"id": j["id"], "hdr": {"docs": kept}, "ev": evs, "detail": detail})
     slim = [{k: t[k] for k in ("id", "hdr", "ev")} for t in h_traces]
@@ -470,8 +499,9 @@ def run(ctx):
         if shown > MAX_REPORT:
             continue
         if not 0 <= r_ < len(t["ev"]):                           # not located (beyond the diagnose budget)
-            bad = [i for i, e in enumerate(t["ev"]) if e["a"] == "Residue" and not all(e[k] for k in ("fns", "cfg", "tmp", "fds"))
-                   or e["a"] == "Extract" and not e["same"] and e["d"] in ("plain", "font")]
+            bad = [i for i, e in enumerate(t["ev"])
+                   if e["a"] == "Residue" and not (all(e[k] for k in ("fns", "cfg", "tmp", "fds")) and e["reg"] != "partial")
+                   or e["a"] == "Extract" and not e["same"] and e["d"] in ("plain", "fail", "font", "deser")]
             r_ = bad[0] if bad else len(t["ev"]) - 1
         e = t["ev"][r_]
         v.violation(what=f"history {t['id'] if len(t['id']) < 120 else t['id'][:120] + '...'}: event {r_ + 1} "
@@ -554,6 +584,34 @@ def _signature(path):
 _AES_FN = re.compile(r"^pypdf\.(_crypt_providers(\._fallback)?|_encryption)\.(aes_(ecb|cbc)_(en|de)crypt|CryptAES(\.\w+)?)$")
 
 
+def _observe(d):
+    """_signature of a document, or of the restoration of a stored extraction (class "deser")"""
+    if d["cls"] != "deser":
+        return _signature(d["path"])
+    from sharepoint2text.parsing.extractors.data_types import ExtractionInterface
+    import dataclasses
+    try:
+        obj = ExtractionInterface.from_json(json.loads(Path(d["path"]).read_text()))
+    except Exception as e:  # noqa
+        return f"EXC:{type(e).__name__}:{str(e)[:160]}", None, e
+    if not dataclasses.is_dataclass(obj) or not hasattr(obj, "to_json"):
+        return f"RAW:{type(obj).__name__}:", None, None
+    blob = json.dumps(obj.to_json(), sort_keys=True, default=repr)
+    return f"OK:{type(obj).__name__}:" + hashlib.sha256(_ADDR.sub(r"\1*)", blob).encode()).hexdigest(), obj, None
+
+
+def _registry_state():
+    """'empty' | 'full' | 'partial' of serialization._TYPE_REGISTRY, read without triggering the lazy fill"""
+    import dataclasses
+    from sharepoint2text.parsing.extractors import data_types, serialization
+    if not hasattr(serialization, "_TYPE_REGISTRY"):
+        raise MachineryError("binding vanished: serialization._TYPE_REGISTRY")
+    full = {n for n in dir(data_types)
+            if isinstance(getattr(data_types, n), type) and dataclasses.is_dataclass(getattr(data_types, n))}
+    have = set(serialization._TYPE_REGISTRY)
+    return "empty" if not have else ("full" if full <= have else "partial")
+
+
 class _Residue:
     """process-global state the library may touch, read before and after"""
 
@@ -609,7 +667,7 @@ class _Residue:
         fds = self._fds()
         fds_new = sorted(t for fd, t in fds.items() if fd not in self.fds0 and t.startswith("/")
                          and not t.startswith(("/dev/", "/proc/")))
-        return {"aesfn": not aes_changed, "fns": not changed, "fns_changed": changed[:6], "cfg": self.ax._config == self.cfg0,
+        return {"reg": _registry_state(), "aesfn": not aes_changed, "fns": not changed, "fns_changed": changed[:6], "cfg": self.ax._config == self.cfg0,
                 "tmp": not tmp_new, "tmp_new": tmp_new[:4], "fds": not fds_new, "fds_new": fds_new[:4]}
 
 
@@ -631,7 +689,7 @@ def _worker_base(docs_json, doc_id, tmp):
     import pypdf._crypt_providers._fallback  # noqa: the functions the AES patch replaces exist before the snapshot
     d = json.loads(Path(docs_json).read_text())[doc_id]
     res = _Residue(tmp)
-    sig, _first, _exc = _signature(d["path"])
+    sig, _first, _exc = _observe(d)
     r = res.read()
     print(json.dumps({"sig": sig, "patches": not r["aesfn"], **r}))
 
@@ -650,7 +708,7 @@ def _worker_hist(docs_json, inp, out, tmp):
     obs = []
     for did in job["docs"]:
         d = docs[did]
-        sig, first, exc = _signature(d["path"])
+        sig, first, exc = _observe(d)
         gl, cl = [], []
         if d["cls"] == "font" and first is not None:
             gl, cl = glyph_projection(first.get_full_text(), d["g"])
